@@ -540,7 +540,24 @@ def tables_complete():
     got = {str(t) for t in c.tables_}
     if got != {'"a"', '"b"'}:
         return f"(a.id == b.id).tables_ == {got!r}: both tables occur in the expression"
+    for label, obj in universe():
+        if not hasattr(obj, "find_") or isinstance(obj, Q_Selectable()):
+            continue
+        try:
+            want = {id(n) for n in obj.nodes_() if isinstance(n, Table)}
+            got_ids = {id(n) for n in obj.tables_}
+        except Exception:
+            continue
+        want_s = {str(n) for n in obj.nodes_() if isinstance(n, Table)}
+        got_s = {str(n) for n in obj.tables_}
+        if not want_s <= got_s:
+            return f"{label}.tables_ == {sorted(got_s)}: the tree also contains {sorted(want_s - got_s)}"
     return None
+
+
+def Q_Selectable():
+    from . import Q
+    return Q.Selectable
 
 
 def replace_slot(cls_short, slot):
